@@ -832,7 +832,9 @@ class Quaternion(Object3d):
         >>> np.rad2deg(ax.angle)
         array([120.])
         """
-        axes, angles = _conversions.qu2ax(self.unit.data)
+        qu = self.unit.data
+        qu = np.where(qu[..., :1] < 0, -qu, qu)
+        axes, angles = _conversions.qu2ax(qu)
         ax = AxAngle(axes * angles)
         return ax
 
@@ -900,7 +902,8 @@ class Quaternion(Object3d):
             ro = Q.axis * np.tan(self.angle / 2)
             ro = Rodrigues(ro)
         else:
-            axes, angles = _conversions.qu2ax(Q.data)
+            qu = np.where(Q.data[..., :1] < 0, -Q.data, Q.data)
+            axes, angles = _conversions.qu2ax(qu)
             axes_angles = np.concatenate((axes, angles), axis=-1)
             ro = _conversions.ax2ro(axes_angles)
         return ro
